@@ -784,6 +784,53 @@ def pt_real(ctx):
                dict(kind='real', spec=REAL_SPEC, type='S', value=repr(v), expected=want.hex()))
 
 
+def x696_real_format(m_lo, m_hi, base, e_lo, e_hi):
+    """X.696 clause 12: which of the three REAL encodings a WITH COMPONENTS constraint selects (independent of oer.py)."""
+    if base != 2:
+        return 'general'
+    if -(2 ** 24 - 1) <= m_lo and m_hi <= 2 ** 24 - 1 and -149 <= e_lo and e_hi <= 104:
+        return 'binary32'
+    if -(2 ** 53 - 1) <= m_lo and m_hi <= 2 ** 53 - 1 and -1074 <= e_lo and e_hi <= 971:
+        return 'binary64'
+    return 'general'
+
+
+def pt_real_classification(ctx):
+    """Every threshold of the binary32 / binary64 classification, one step inside and one step outside."""
+    M32, M64 = 2 ** 24 - 1, 2 ** 53 - 1
+    cons = []
+    for m in (M32 - 1, M32, M32 + 1, M64 - 1, M64, M64 + 1, 1000):
+        for e_lo, e_hi in ((-149, 104), (-150, 104), (-149, 105), (-149, 120), (-149, 127), (-149, 128), (-126, 127),
+                           (-1074, 971), (-1075, 971), (-1074, 972), (-1022, 1023), (-10, 10), (0, 0), (105, 200)):
+            for base in (2, 10):
+                for m_lo in (-m, 0):
+                    cons.append((m_lo, m, base, e_lo, e_hi))
+    types = ['T%d ::= REAL (WITH COMPONENTS { mantissa (%d..%d), base (%d), exponent (%d..%d) })' % ((i,) + c)
+             for i, c in enumerate(cons)]
+    text = 'RC DEFINITIONS AUTOMATIC TAGS ::= BEGIN\n' + '\n'.join(types) + '\nEND\n'
+    r = lib.attempt(lib.compile_string, text, 'oer')
+    if r[0] != 'ok':
+        report(ctx, 'REAL classification module does not compile: %r' % (r[1:],), dict(kind='real-class', spec=text))
+        return
+    general = b'\x03\x80\x00\x01'          # length 3, X.690 binary form of 1.0 (mantissa 1, exponent 0)
+    want = {'binary32': ieee754(1.0, 8, 23), 'binary64': ieee754(1.0, 11, 52), 'general': general}
+    for i, c in enumerate(cons):
+        fmt = x696_real_format(*c)
+        got = lib.attempt(r[1].encode, 'T%d' % i, 1.0)
+        ctx.case(('real-class', c), None)
+        ctx.count('real-class:' + fmt)
+        if got != ('ok', want[fmt]):
+            report(ctx, 'REAL with components mantissa (%d..%d) base %d exponent (%d..%d) is %s in X.696 clause 12: 1.0 must be '
+                        '%s, library gives %s' % (c + (fmt, want[fmt].hex(), got[1].hex() if got[0] == 'ok' else got[1:])),
+                   dict(kind='real-class', spec='RC DEFINITIONS AUTOMATIC TAGS ::= BEGIN\n' + types[i].replace('T%d' % i, 'T') + '\nEND\n',
+                        type='T', value='1.0', expected=want[fmt].hex()))
+            continue
+        back = lib.attempt(r[1].decode, 'T%d' % i, want[fmt] + b'\x55')
+        if back != ('ok', 1.0):
+            report(ctx, 'REAL classification %r: decode(%s) = %r' % (c, want[fmt].hex(), back[1:]),
+                   dict(kind='real-class-decode', spec=text, type='T%d' % i, data=want[fmt].hex()))
+
+
 # ---------------------------------------------------------------------------
 # known findings and replay
 
@@ -882,6 +929,7 @@ def run(ctx):
         collect_module(ctx, cs, mod, text, gen.gen_value, 2 if quick else 3, numeric, 'random',
                        ntrunc=4 if quick else 8, nmal=2 if quick else 4)
     pt_real(ctx)
+    pt_real_classification(ctx)
     ctx.log('library side done: %d evaluations' % ctx.evaluations)
     run_coq(ctx, cs)
     ctx.extra['open_theorems'] = open_theorems()
